@@ -98,6 +98,10 @@ class C02:
             s.add("init", 1, 0, flags, "noerr")      # no error function: diagnostics go to stderr, never to stdout
         else:
             s.add("init", 1, 0, flags)
+        if case.get("sp"):
+            # the context has a search path (two directories): sections share it, includes and cfg_parse() walk it
+            s.add("searchpath", 1, hx(fx))
+            s.add("searchpath", 1, hx(os.path.join(fx, "inc_dir")))
         if via == "file":
             fn = os.path.join(fx, "case_input.conf")
             s.add("mkfile", hx(fn), text_arg(parts))
@@ -215,6 +219,15 @@ class C02:
             add("distinct-keys-root-%d" % n, [X(keys)], schemas=("mixed",), flagsets=(F_KEYSTRVAL, F_IGNORE_UNKNOWN))
             add("distinct-titles-%d" % n, [X("".join("tm t%d { x = %d }\n" % (i, i) for i in range(n)))], flagsets=(0,))
             add("distinct-appends-%d" % n, [X("".join("il += %d\nsl += e%d\n" % (i, i) for i in range(n)))], flagsets=(0,))
+        # with a search path: sections created, replaced (same title again), re-opened, nested, removed by a failing parse;
+        # includes afterwards walk the path
+        for body in ("tm a { }\ntm a { }\n", "tm a { x = 1 }\ntm b { }\ntm a { x = 2 }\ninclude(\"inc_ok.conf\")\n", "tm a { }\ntm A { }\ntm a { }\n",
+                     "single { x = 1 }\nsingle { x = 2 }\ninclude(\"inc_ok.conf\")\n", "tm a { }\ntm a {\n", "tm a { }\ntm a { zz = 1 }\n",
+                     "tm a { include(\"inc_ok.conf\") }\ntm a { include(\"inc_ok.conf\") }\n", "kv { a = 1 }\nkv { a = 2 }\ninclude(\"missing.conf\")\n",
+                     "include(\"inc_ok.conf\")\ninclude(\"inc_deep0.conf\")\n", "tm a { }\n" * 40, "fn(a)\ntm t { }\ntm t { }\nfn(b)\ninclude(\"inc_bad.conf\")\n"):
+            for fl in (0, F_NOCASE, F_COMMENTS | F_IGNORE_UNKNOWN):
+                for via in ("buf", "file"):
+                    shapes.append({"schema": "mixed", "flags": fl, "via": via, "text": [X(body)], "shape": "with-search-path", "sp": True})
         for k in ENV_SIZES:
             add("tok-env-set-2e%d" % k, [X("s = \"x${B%d}y\"" % k)])
             add("tok-env-set-bare-2e%d" % k, [X("s = ${B%d}${B%d}" % (k, k))])
@@ -309,7 +322,7 @@ class C02:
                     text = text[:j] + text[i:j] + text[j:]
             text = text.replace("\x00", "\x01")
             via = draw(st.sampled_from(["buf", "buf", "fp", "file"]))
-            return {"schema": sc, "flags": fl, "via": via, "text": [["x", text]]}
+            return {"schema": sc, "flags": fl, "via": via, "text": [["x", text]], "sp": draw(st.integers(0, 3)) == 0}
         return case()
 
     def memcheck_cases(self, n):
